@@ -89,6 +89,11 @@ def scenarios(tier, seed):
     # 5. input diversity after a mixed prefix
     sc.append(one("random:float,int", [["max", {}, "floatna"], ["first", {}, "int"]], [], rnd={"seed": seed * 7 + 1, "n": 150 if tier == "quick" else 1500, "kinds": ["float", "int"]}))
     sc.append(one("random:bool,date,datetime", [["min", {}, "date"]], [], rnd={"seed": seed * 7 + 2, "n": 150 if tier == "quick" else 1500, "kinds": ["bool", "date", "datetime"]}))
+    # 6. missing values kept (drop_na=False) and dropped (drop_na=True) for every helper that takes the argument
+    for kind in ["floatna", "date", "datetime"]:
+        for flag in (False, True):
+            probes = [[h, dict(kw, drop_na=flag), kind] for h, kw in VARIANTS if h not in ("all", "any") and "drop_na" not in kw and ok_combo(h, kind)]
+            sc.append(one(f"drop_na={flag}:{kind}", [], probes))
     if tier == "thorough":
         for kind in KINDS:
             for (a, akw), (b, bkw) in itertools.permutations(VARIANTS, 2):
